@@ -46,12 +46,14 @@ _STATE: dict = {"contract_violations": []}
 def setup_worker() -> None:
     import zorg.service.handlers as h
 
-    harness.COUNTERS.watch("_add_zid_to_line", h._add_zid_to_line)
-    harness.COUNTERS.watch("create_database", h.create_database)
-    harness.COUNTERS.watch("reindex_database", h.reindex_database)
-    orig = h._update_zo_file
-    harness.COUNTERS.watch("_update_zo_file", orig)
-    if contracts.AVAILABLE:
+    harness.COUNTERS.watch_attr(h, "_add_zid_to_line")
+    harness.COUNTERS.watch_attr(h, "create_database")
+    harness.COUNTERS.watch_attr(h, "reindex_database")
+    orig = getattr(h, "_update_zo_file", None)
+    harness.COUNTERS.watch_attr(h, "_update_zo_file")
+    if orig is None:
+        contracts.bump("missing.contract_evals._update_zo_file")
+    if contracts.AVAILABLE and orig is not None:
         ic = contracts.icontract
 
         def snap(zo_path):
